@@ -18,7 +18,7 @@ CONFIG = dict(
           "lists are counted as evaluations but not as non-trivial; distinct by hash of (dots, xs)."),
     assumptions=["the supported coordinate range is 0..MaxUint64/10^6-1 as defined in piecefunc.go (the property text does not give the number)"],
     units=[
-        dict(test="TestC31", quick=100000, thorough=32000000, shards=16),
+        dict(test="TestC31", quick=100000, thorough=16000000, shards=16),
         dict(test="TestC31Constants", kind="plain"),
         dict(test="FuzzC31", kind="fuzz", fuzztime="60s", tiers=["thorough"]),
     ],
